@@ -65,6 +65,7 @@ RULE = ("case = bundle policy of each peer + script over {addTransceiver(kind,di
 POLICIES = ["balanced", "max-compat", "max-bundle"]
 KINDS = ["audio", "video"]
 DIRS = ["inactive", "sendonly", "recvonly", "sendrecv"]
+LATE_S = 0.3        # signalling latency of a follow-up answer in "late" cases
 SHORT_WAIT = 5.0    # the same while shrinking a failing case
 WAIT = 20.0         # bound (s) for connected + echo after an exchange (typically reached after 0.1-0.3 s)
 
@@ -360,8 +361,9 @@ class _Runner:
         else:
             raise ValueError("bad op " + op)
 
-    async def exchange(self, p):
-        """-> (out tokens, stop?)"""
+    async def exchange(self, p, wait=True, wait_before=True):
+        """-> (out tokens, stop?)   `wait=False`: the next operation follows at once (no waiting for `connected`)"""
+        import asyncio
         o, a = self.pcs[p], self.pcs[1 - p]
         step = "createOffer"
         try:
@@ -375,6 +377,8 @@ class _Runner:
             step = "setLocal(answer)"
             await a.setLocalDescription(answer)
             step = "setRemote(answer)"
+            if self.case.get("late") and not wait_before:
+                await asyncio.sleep(LATE_S)     # signalling latency: the answer reaches the offerer a little late
             await o.setRemoteDescription(a.localDescription)
         except Exception as exc:  # noqa: BLE001
             tag = _exc_tag(exc)
@@ -397,7 +401,7 @@ class _Runner:
             self.failures.append(("static", why, None))
         self.states = [state_str(self.pcs[0]), state_str(self.pcs[1])]
         # runtime part: connected + echo (observed only)
-        if self.mode != "static":
+        if self.mode != "static" and wait:
             why = await self.wait_connected(d_al)
             if why:
                 self.failures.append(("runtime", why, None))
@@ -452,9 +456,14 @@ class _Runner:
                     @ch.on("message")
                     def on_msg(msg, ch=ch):
                         ch.send("echo:" + msg)
-            for op in self.case["ops"]:
+            last_n = max([i for i, op in enumerate(self.case["ops"]) if op.startswith("N:")], default=-1)
+            first_n = min([i for i, op in enumerate(self.case["ops"]) if op.startswith("N:")], default=-1)
+            for idx, op in enumerate(self.case["ops"]):
                 if op.startswith("N:"):
-                    toks, stopped = await self.exchange(int(op[2:]))
+                    # "nowait": follow-up negotiations are issued at once, while ICE/DTLS of the previous one are
+                    # still in progress; only the last exchange is followed by the connected + echo observation
+                    toks, stopped = await self.exchange(int(op[2:]), wait=not self.case.get("nowait") or idx == last_n,
+                                                        wait_before=not self.case.get("nowait") or idx == first_n)
                     out += toks
                     if stopped:
                         break
@@ -597,7 +606,12 @@ def gen_case(rng):
             if k:
                 ops.append("R:%d:%d:%s" % (q, rng.randrange(len(k)), rng.choice(DIRS)))
         ops.append("N:%d" % who)
-    return {"pa": rng.choice(POLICIES), "pb": rng.choice(POLICIES), "ops": ops}
+    case = {"pa": rng.choice(POLICIES), "pb": rng.choice(POLICIES), "ops": ops}
+    if sum(1 for o in ops if o.startswith("N:")) > 1 and rng.random() < 0.5:
+        case["nowait"] = True
+        if rng.random() < 0.5:
+            case["late"] = True
+    return case
 
 
 def systematic():
@@ -613,6 +627,10 @@ def systematic():
                                                      "T:1:audio:sendrecv:0", "T:1:video:sendonly:1", "N:0", "N:1"]})
             out.append({"pa": pa, "pb": pb, "ops": ["D:0", "K:0:audio", "T:1:video:sendrecv:0", "K:1:audio", "N:0",
                                                      "K:0:video", "N:0"]})
+            # follow-up negotiation issued immediately (the first one is still connecting): added media / swapped offerer
+            out.append({"pa": pa, "pb": pb, "nowait": True, "ops": ["D:0", "N:0", "T:0:video:sendrecv:1", "N:0"]})
+            out.append({"pa": pa, "pb": pb, "nowait": True, "ops": ["D:0", "K:0:audio", "N:0", "K:1:video", "N:1"]})
+            out.append({"pa": pa, "pb": pb, "nowait": True, "late": True, "ops": ["D:0", "N:0", "N:1"]})
     return out
 
 
@@ -731,7 +749,7 @@ class Exchange(Component):
         swap = len(set(op for op in case["ops"] if op.startswith("N:"))) > 1
         dc = any(op.startswith("D:") for op in case["ops"])
         pref = any(op.startswith("C:") for op in case["ops"])
-        return "ok:n%d%s%s%s:%s/%s" % (n, ":swap" if swap else "", ":dc" if dc else "", ":pref" if pref else "",
+        return "ok:n%d%s%s%s%s:%s/%s" % (n, (":nowait+late" if case.get("late") else ":nowait") if case.get("nowait") else "", ":swap" if swap else "", ":dc" if dc else "", ":pref" if pref else "",
                                       case["pa"], case["pb"])
 
     def nontrivial(self, case, impl_out):
